@@ -8,8 +8,10 @@ From SioV Require Import Base.GoSem Base.Conc Eio.Handshake Eio.HandshakeRace.
     (0 empty, 1 error object, 2 OPEN packet, 3 "ok", 4 payload, 5 anything else). *)
 Definition obs := (N * option N * bytes * N)%type.
 
-(** state before, request, random bytes drawn (by sequence number), observation, state after *)
-Definition mcase := (sstate * request * list (N * bytes) * obs * sstate)%type.
+(** state before, request, random bytes drawn (by sequence number), observation, state after,
+    sids of the sessions the rig has closed so far (by whatever cause: server-side Close, CLOSE
+    packet, parse error, oversized body, ping timeout, websocket hang-up) *)
+Definition mcase := (sstate * request * list (N * bytes) * obs * sstate * list bytes)%type.
 
 Definition rnd_fun (l : list (N * bytes)) : N -> bytes :=
   fun q => match find (fun e => N.eqb (fst e) q) l with Some e => snd e | None => [] end.
@@ -42,7 +44,7 @@ Definition state_eqb (a b : sstate) : bool :=
   Bool.eqb (s_closed a) (s_closed b) && store_eqb (s_store a) (s_store b) && N.eqb (s_seq a) (s_seq b).
 
 Definition agree (c : mcase) : bool :=
-  let '(pre, rq, rnd, (st, code, sid, body), post) := c in
+  let '(pre, rq, rnd, (st, code, sid, body), post, _) := c in
   let '(r, post') := serve (rnd_fun rnd) pre rq in
   N.eqb (resp_status r) st && opt_eqb (resp_code r) code && bytes_eqb (resp_sid r) sid
   && N.eqb (resp_body r) body && state_eqb post' post.
@@ -54,13 +56,21 @@ Definition memN (x : N) (l : list N) : bool := existsb (N.eqb x) l.
 
 (** The property, on the observation alone (no [serve]): see C17_invalid_is_error_and_pure,
     C17_valid_handshake_fresh, C17_closed_admits_none. *)
+Definition without (killed : list bytes) (st : store) : store :=
+  filter (fun e => negb (existsb (bytes_eqb (fst e)) killed)) st.
+
+(** A closed session is not a live session, whatever the store still says: the requests are
+    judged against the sessions the rig has NOT closed (so a request carrying the sid of a closed
+    session must get code 1 even if the server forgot to drop it). *)
 Definition oracle (c : mcase) : bool :=
-  let '(pre, rq, _, (st, code, sid, _), post) := c in
+  let '(pre0, rq, _, (st, code, sid, _), post0, killed) := c in
+  let pre := mkState (s_closed pre0) (without killed (s_store pre0)) (s_seq pre0) in
+  let post := mkState (s_closed post0) (without killed (s_store post0)) (s_seq post0) in
   let ds := defects pre rq in
-  Bool.eqb (s_closed post) (s_closed pre) && nodupb (sids (s_store post)) &&
+  Bool.eqb (s_closed post) (s_closed pre) && nodupb (sids (s_store post0)) &&
   if s_closed pre then
     (* closed: nothing is admitted, nothing is left *)
-    N.eqb st 503 && is_nil sid && is_nil (s_store post)
+    N.eqb st 503 && is_nil sid && is_nil (s_store post0)
   else if negb (is_nil ds) then
     (* an invalid request: the code of (one of) its defects, nothing created, nothing altered;
        a request the Authenticator refuses may be answered 403 instead *)
@@ -70,7 +80,7 @@ Definition oracle (c : mcase) : bool :=
   else if negb (is_nil sid) then
     (* an accepted handshake: a session id that no live session has, and exactly that session is new *)
     is_nil (r_sid rq) && r_auth rq && (N.eqb st 200 || N.eqb st 101)
-    && negb (existsb (bytes_eqb sid) (sids (s_store pre)))
+    && negb (existsb (bytes_eqb sid) (sids (s_store pre0)))
     && store_eqb (s_store post)
          (s_store pre ++ [(sid, if bytes_eqb (r_tr rq) s_polling then Polling else Websocket)])
   else
@@ -135,5 +145,5 @@ Definition oracle_race (c : rcase) : bool :=
   forallb (fun st => N.eqb st 200 || N.eqb st 101 || N.eqb st 503) statuses
   && N.eqb nleft 0                                 (* all existing ones are closed ... *)
   && N.eqb onclose (live + onsocket)               (* ... each exactly once, the late comer included *)
-  && N.eqb onsocket (count_true (map (fun st => negb (N.eqb st 503)) statuses))
+  && N.leb onsocket (count_true (map (fun st => negb (N.eqb st 503)) statuses))
   && N.eqb after 503.                              (* and nothing is admitted afterwards *)
